@@ -39,7 +39,7 @@ def logedge_profile(**kw):
     """Problems whose start lies at/near the upper (or lower) bound of a wide log-scaled variable: after the 0.1% repair the
     start is less than half a search-mesh step from the transformed bound, so gridisation can round it past the bound."""
     p = dict(DEFAULT_PROFILE)
-    p.update(maxD=2, coord_classes=("log", "log", "log", "linear"), x0_classes=("near2", "near2", "on_ub", "near", "on_lb"),
+    p.update(maxD=2, coord_classes=("log_edge", "log_edge", "log", "linear"), x0_classes=("near2u", "near2u", "near2u", "near2", "on_ub"),
              p_x0_none=0.0, p_plausible_omitted=0.0, p_cons=0.0, extra_budget=(2, 25), noise_modes=("none", "none", "declared"),
              max_iter_choices=(2, None), tol_mesh_choices=(None,), extra_options=False, p_subdesign=0.0)
     p.update(kw)
@@ -102,6 +102,17 @@ def coord(draw, cls, scale_exp):
         plb = lb * draw(st.sampled_from([1.0, 1.5, 3.0, 1500.0]))
         pub = plb * draw(st.sampled_from([10.0, 10.0, 30.0, 1e3, 1e4, 410.7, 77.3]))
         ub = pub * draw(st.sampled_from([1.0, 2.0, 10.0, 1.37, 1.623, 3.3, 1.05]))
+    elif cls == "log_edge":
+        # log-scaled variable whose transformed upper bound sits just below a node of the initial search mesh (2^-10): a start
+        # repaired to 0.1% inside the bound is then closer to that node than to the one below the bound
+        lb = W
+        plb = lb * draw(st.sampled_from([1.5, 3.0, 1500.0]))
+        pub = plb * draw(st.sampled_from([1e3, 1e4, 410.7]))
+        m_, w_ = (math.log(plb) + math.log(pub)) / 2.0, (math.log(pub) - math.log(plb)) / 2.0
+        h_ = 2.0**-10
+        k_ = draw(st.integers(1100, 2400))  # transformed upper bound between ~1.07 and ~2.34
+        ub = math.exp(m_ + w_ * (k_ * h_ - draw(st.sampled_from([0.05, 0.1, 0.15])) * h_))
+        cls = "log"
     elif cls == "posnolog":
         lb = W
         plb = lb * draw(st.sampled_from([1.0, 1.2, 2.0]))
@@ -168,6 +179,11 @@ def x0_coord(draw, c, cls):
         # just inside the 0.1% repair margin (not repaired): gridisation can still round it past a bound of a log-scaled variable
         f = draw(st.sampled_from([1.1e-3, 1.3e-3, 1.6e-3]))
         return lb + f * (ub - lb) if draw(st.booleans()) else ub - f * (ub - lb)
+    if cls == "near2u":
+        # a hair inside the upper repair margin: neither repaired nor (therefore) absorbed into the plausible box
+        if math.isinf(ub):
+            return interior
+        return ub - draw(st.sampled_from([1.02e-3, 1.05e-3, 1.1e-3])) * (ub - lb)
     if cls == "at_plb":
         return plb
     if cls == "at_pub":
